@@ -4,9 +4,12 @@ import (
 	"bytes"
 	"encoding/binary"
 	"fmt"
+	"net"
 	"sort"
 	"strings"
 	"time"
+
+	"github.com/gorilla/websocket"
 
 	"go.nanomsg.org/mangos/v3"
 	"go.nanomsg.org/mangos/v3/verifsim/simrt"
@@ -544,5 +547,247 @@ func clipAll(bs [][]byte) [][]byte {
 }
 
 func init() {
-	register(&Scenario{Name: "hostile-peers", Prop: "C16", Horizon: time.Hour, Run: c16Run})
+	register(&Scenario{Name: "hostile-peers", Prop: "C16", Horizon: time.Hour, Weight: 15, Run: c16Run})
+}
+
+// c16Real: hostile peers against the real tcp and ws transports on loopback
+// (engine R: wall clock, OS scheduling; only timing-free oracles with generous
+// real-time bounds). Covers transport/tcp and transport/ws receive paths,
+// which the simulator cannot host.
+func c16Real(w *W) {
+	kind := []string{"pull", "bus", "sub", "pair", "xrep", "xsurveyor", "star"}[w.Choose(simrt.SShape, 7)]
+	tran := []string{"tcp", "ws"}[w.Choose(simrt.SShape, 2)]
+	limit := []int{100, 1000, 5000}[w.Choose(simrt.SShape, 3)]
+	w.SetShape("kind", kind)
+	w.SetShape("tran", tran)
+	w.SetShape("limit", limit)
+	s := w.Sock(kind)
+	defer s.Close()
+	mustSet(w, s, mangos.OptionMaxRecvSize, limit)
+	mustSet(w, s, mangos.OptionRecvDeadline, 300*time.Millisecond)
+	if kind == "sub" {
+		mustSet(w, s, mangos.OptionSubscribe, "")
+	}
+	url := "tcp://127.0.0.1:0"
+	if tran == "ws" {
+		url = "ws://127.0.0.1:0/sp"
+	}
+	l, err := s.NewListener(url, nil)
+	if err != nil || l.Listen() != nil {
+		w.Failf("HARNESS/listen", "%v", err)
+		return
+	}
+	addr := l.Address()
+	hostport := strings.TrimPrefix(strings.TrimPrefix(addr, "tcp://"), "ws://")
+	hostport = strings.TrimSuffix(hostport, "/sp")
+	info := s.Info()
+	pairLike := kind == "pair"
+	// a conforming connection: returns send(payload) and close
+	type peerT struct {
+		send  func([]byte) error
+		close func()
+		alive func() bool // false once mangos closed the connection
+	}
+	connect := func() *peerT {
+		if tran == "tcp" {
+			c, err := net.Dial("tcp", hostport)
+			if err != nil {
+				return nil
+			}
+			c.Write(wcHeader(protoOf(peerKind[kind])))
+			c.SetReadDeadline(time.Now().Add(5 * time.Second))
+			if _, _, err := wcReadHeader(c); err != nil {
+				c.Close()
+				return nil
+			}
+			return &peerT{
+				send:  func(p []byte) error { _, err := c.Write(wcFrame(false, p)); return err },
+				close: func() { c.Close() },
+				alive: func() bool {
+					c.SetReadDeadline(time.Now().Add(2 * time.Second))
+					_, err := c.Read(make([]byte, 1))
+					ne, ok := err.(net.Error)
+					return err == nil || (ok && ne.Timeout())
+				},
+			}
+		}
+		d := &websocket.Dialer{Subprotocols: []string{info.SelfName + ".sp.nanomsg.org"}}
+		c, _, err := d.Dial(addr, nil)
+		if err != nil {
+			return nil
+		}
+		return &peerT{
+			send:  func(p []byte) error { return c.WriteMessage(websocket.BinaryMessage, p) },
+			close: func() { c.Close() },
+			alive: func() bool {
+				c.SetReadDeadline(time.Now().Add(2 * time.Second))
+				_, _, err := c.ReadMessage()
+				ne, ok := err.(net.Error)
+				return err == nil || (ok && ne.Timeout())
+			},
+		}
+	}
+	drain := func() [][]byte {
+		var out [][]byte
+		for i := 0; i < 32; i++ {
+			b, err := s.Recv()
+			if err != nil {
+				break
+			}
+			out = append(out, b)
+		}
+		return out
+	}
+	seq := 0
+	controlOK := func() bool {
+		p := connect()
+		if p == nil {
+			w.Failf("C16/conforming-peer-not-attached", "%s over %s: a conforming peer cannot connect after hostile traffic", kind, tran)
+			return false
+		}
+		defer p.close()
+		seq++
+		tag := fmt.Sprintf("control-%d", seq)
+		time.Sleep(20 * time.Millisecond)
+		if err := p.send(inbound(kind, uint32(seq), tag)); err != nil {
+			w.Failf("C16/control-peer-starved:"+kind, "control write: %v", err)
+			return false
+		}
+		for _, g := range drain() {
+			if string(g) == tag {
+				w.Probe("control-exchange-ok")
+				w.Delivery++
+				return true
+			}
+			if !strings.HasPrefix(string(g), "control-") {
+				w.Failf("C16/pollution:"+kind, "%s over %s delivered %q", kind, tran, clip(g))
+				return false
+			}
+		}
+		w.Failf("C16/control-peer-starved:"+kind, "%s over %s: the well-behaved peer's message was not delivered after hostile traffic", kind, tran)
+		return false
+	}
+	if !controlOK() {
+		return
+	}
+	nops := 2 + w.Choose(simrt.SShape, 5)
+	for op := 0; op < nops && !w.Failed(); op++ {
+		k := w.Choose(simrt.SProg, 6)
+		a := w.Choose(simrt.SProg, 1<<16)
+		switch k {
+		case 0: // raw junk at connection level
+			c, err := net.Dial("tcp", hostport)
+			if err != nil {
+				continue
+			}
+			w.Op("hostile: %d junk bytes on a fresh connection", 1+a%200)
+			w.Fault("junk")
+			c.Write(wireBody(1+a%200, a))
+			time.Sleep(10 * time.Millisecond)
+			c.Close()
+		case 1: // handshake never completes
+			c, err := net.Dial("tcp", hostport)
+			if err != nil {
+				continue
+			}
+			w.Op("hostile: connects and stays silent")
+			w.Fault("hs-stall")
+			w.OnCleanup(func() { c.Close() })
+		case 2, 3: // message around the limit
+			if pairLike {
+				continue
+			}
+			p := connect()
+			if p == nil {
+				w.Failf("C16/conforming-peer-not-attached", "cannot connect")
+				return
+			}
+			n := limit - 1 + a%3
+			payload := wireBody(n, a)
+			copy(payload, inboundHeader(kind, 7))
+			w.Op("hostile: message of %d bytes, limit %d", n, limit)
+			time.Sleep(20 * time.Millisecond)
+			_ = p.send(payload)
+			got := drain()
+			body, ok := deliverable(kind, payload)
+			if n <= limit {
+				if ok && (len(got) != 1 || !bytes.Equal(got[0], body)) {
+					w.Failf("C16/well-formed-message-lost:"+kind, "%s over %s (MaxRecvSize %d): a %d-byte message was not delivered intact (got %d messages)", kind, tran, limit, n, len(got))
+					return
+				}
+				if n == limit {
+					w.Probe("frame-equal-to-limit")
+				}
+			} else {
+				w.Fault("oversize")
+				if len(got) != 0 {
+					w.Failf("C16/oversize-delivered:"+kind, "%s over %s (MaxRecvSize %d): a %d-byte message was delivered", kind, tran, limit, n)
+					return
+				}
+				if p.alive() {
+					w.Failf("C16/oversize-not-dropped:"+kind, "%s over %s (MaxRecvSize %d): after a %d-byte message the connection is still open 2s later", kind, tran, limit, n)
+					return
+				}
+				w.Probe("over-limit-connection-dropped")
+			}
+			p.close()
+		case 4: // tcp: absurd announcement; ws: HTTP without upgrade
+			c, err := net.Dial("tcp", hostport)
+			if err != nil {
+				continue
+			}
+			if tran == "tcp" {
+				w.Op("hostile: announces 2^63-1 bytes")
+				w.Fault("oversize")
+				c.Write(wcHeader(protoOf(peerKind[kind])))
+				c.Write([]byte{0x7f, 0xff, 0xff, 0xff, 0xff, 0xff, 0xff, 0xff})
+				c.SetReadDeadline(time.Now().Add(3 * time.Second))
+				buf := make([]byte, 64)
+				closed := false
+				for i := 0; i < 4; i++ {
+					if _, err := c.Read(buf); err != nil {
+						ne, ok := err.(net.Error)
+						closed = !(ok && ne.Timeout())
+						break
+					}
+				}
+				if !closed && !pairLike {
+					w.Failf("C16/oversize-not-dropped:"+kind, "%s over tcp (MaxRecvSize %d): a peer announced 2^63-1 bytes; the connection is still open 3s later", kind, limit)
+					return
+				}
+				w.Probe("huge-announcement-dropped")
+			} else {
+				w.Op("hostile: plain HTTP GET without upgrade")
+				c.Write([]byte("GET /sp HTTP/1.1\r\nHost: x\r\n\r\n"))
+				time.Sleep(20 * time.Millisecond)
+			}
+			c.Close()
+		case 5: // truncated frame then close
+			if tran != "tcp" || pairLike {
+				continue
+			}
+			c, err := net.Dial("tcp", hostport)
+			if err != nil {
+				continue
+			}
+			w.Op("hostile: truncated frame")
+			w.Fault("junk")
+			c.Write(wcHeader(protoOf(peerKind[kind])))
+			f := wcFrame(false, wireBody(50, a))
+			c.Write(f[:1+a%(len(f)-1)])
+			time.Sleep(10 * time.Millisecond)
+			c.Close()
+		}
+		if len(drain()) > 0 && k != 2 && k != 3 {
+			w.Failf("C16/pollution:"+kind, "%s over %s delivered something after connection-level garbage", kind, tran)
+			return
+		}
+		if !controlOK() {
+			return
+		}
+	}
+}
+
+func init() {
+	register(&Scenario{Name: "hostile-peers-real-transports", Prop: "C16", Engine: "R", Weight: 1, Run: c16Real})
 }
